@@ -132,13 +132,29 @@ def big_jobs(rng, nconf, ninp, names=None):
 
 
 # ------------------------------------------------------------------------------------------------- the check
+MINE = ('Spec/C07', 'Model/StructArith', 'Proofs/C07/', 'Properties/C07', 'Gen/', 'Base/')
+
+
+def prove_retry(ctx):
+    """other properties are built concurrently in the same tree while the suite is developed: a failure of `make` that is
+    not located in a file this property depends on (e.g. a vanished scratch file in .Makefile.d) is retried"""
+    for attempt in range(4):
+        r = ctx.prove(['Properties/C07.v'])
+        if r['ok'] or (r.get('file') and r['file'].startswith(MINE)) or 'forbidden vernacular' in (r.get('msg') or ''):
+            return r
+        ctx.log('build failed outside this property (%s); retrying' % (r.get('msg') or '')[:200].replace('\n', ' '))
+        time.sleep(5 + 10 * attempt)
+    return r
+
+
 def run(ctx):
     ctx.cov['rule'] = ('obligations = theorems of Properties/C07.v over the regenerated primitives and the structural models; '
                        'correspondence case = (block, width configuration, input tuple) evaluated on the REAL block, the Coq model and the Coq spec; '
                        'distinct = (block, width configuration); every case is non-trivial (a full propagate of the real block); '
                        'inputs with a zero divisor are skipped (unspecified)')
+    B.HEAVY = not ctx.quick
     missing = ctx.regen(B.ALL_GEN)
-    r = ctx.prove(['Properties/C07.v'])
+    r = prove_retry(ctx)
     if missing: ctx.log('translator rejected: %s' % missing)
     if not r['ok']: ctx.log('proof obligations broken: %s in %s: %s' % (r.get('lemma'), r.get('file'), (r.get('msg') or '')[:300]))
     proof_ok = r['ok'] and not missing
